@@ -874,12 +874,17 @@ impl Formula {
                 let term_variables = term.variables();
                 let formula_variables = formula.free_variables();
 
+                let block = quantification.variables.clone();
+
                 for variable in quantification.variables {
                     if term_variables.contains(&variable) {
                         let fresh_variable = Variable::sequence(&variable)
                             .find(|candidate| {
                                 !term_variables.contains(candidate)
                                     && !formula_variables.contains(candidate)
+                                    && *candidate != var
+                                    && !block.contains(candidate)
+                                    && !variables.contains(candidate)
                             })
                             .unwrap();
 
